@@ -311,7 +311,7 @@ nested, and a block object handed to a rule is not held by another rule (see `sh
 theorem dstep_valid (ds : DSt) (op : DOp) (hv : DValid ds) (hs : DOpOK op) : DValid (dstep ds op).1 := by
   refine ⟨?_, dstep_links ds op hv.links hs⟩
   cases op with
-  | sheet o => exact step_valid ds.st o hv.sheet hs
+  | sheet o => rw [dstep_sheet_st]; exact step_valid ds.st o hv.sheet hs
   | newStyle path items form => rw [dstep_st _ _ (by intro o h; cases h)]; exact hv.sheet
   | shareStyle path src => rw [dstep_st _ _ (by intro o h; cases h)]; exact hv.sheet
   | blockText path items => rw [dstep_st _ _ (by intro o h; cases h)]; exact hv.sheet
